@@ -27,4 +27,5 @@ Definition run (comp : Z) (inp : list Z) : list Z :=
   else if comp =? 50 then run_ref_decode inp
   else if comp =? 51 then run_enc_with inp
   else if comp =? 52 then run_raw_of inp
+  else if comp =? 60 then run_merge inp
   else [-3].
